@@ -445,5 +445,7 @@ def main(tier):
     rep.attempt(check_scratch_clear, rep, mod)
     import c17
     rep.attempt(c17.check_hash_clear, rep, mod)
+    import recordfull
+    rep.attempt(recordfull.check, rep, mod)
     rep.attempt(provenance.check_undef, rep, None, 'ALL', 130)
     return rep.finish()
